@@ -311,6 +311,41 @@ pub fn run(ctx: &Ctx) -> i32 {
                     });
                 }
             }
+            // a stream of frames in one reader: after this frame the next one is decoded from where
+            // the first decode left the reader - it must be the frame that follows in the bytes
+            {
+                let other = &shared[r.below(shared.len() as u64) as usize];
+                let want_second = outcome_bytes(other);
+                if matches!(base, Outcome::Ok { .. }) {
+                    let need = if bytes[0] & 0x80 != 0 { 14 } else { 7 };
+                    let mut stream = bytes[..need.min(bytes.len())].to_vec();
+                    stream.extend_from_slice(other);
+                    let sched: Vec<Step> = match r.below(3) {
+                        0 => vec![],
+                        1 => (0..40).map(|_| Step::Chunk(r.range(1, 5) as usize)).collect(),
+                        _ => (0..40).map(|_| if r.chance(0.25) { Step::Interrupt } else { Step::Chunk(r.range(1, 16) as usize) }).collect(),
+                    };
+                    let dc = *r.pick(&[1usize, 5, usize::MAX]);
+                    let mut rd = HostileReader::new(&stream, sched.clone(), dc);
+                    let first = mon::guarded(|| Frame::from_reader(&mut rd));
+                    let pos_after = rd.pos;
+                    let second = mon::guarded(|| Frame::from_reader(&mut rd));
+                    let o2 = match second {
+                        Ok(Ok(f)) => Outcome::Ok { debug: format!("{:?}", f.df), crc: f.crc },
+                        Ok(Err(_)) => Outcome::Err,
+                        Err((loc, _)) => Outcome::Panic(loc),
+                    };
+                    col.count("streams_of_two_frames", 1);
+                    if matches!(first, Ok(Ok(_))) && o2 != want_second {
+                        col.add(Finding {
+                            prop: "C19".into(),
+                            sig: format!("C19|second_frame_of_stream_differs|df{}", bytes[0] >> 3),
+                            detail: format!("two frames back to back in one reader: after the first ({need} bytes) the reader stood at offset {pos_after}; the second decode gave {o2:?}, from_bytes of the second frame gives {want_second:?}"),
+                            input: json!({"frame_hex": hex(&bytes[..need.min(bytes.len())]), "second_frame_hex": hex(other), "schedule": sched_text(&sched)}),
+                        });
+                    }
+                }
+            }
             // purity: repeat and interleave
             let again = outcome_bytes(&bytes);
             let other = &shared[r.below(shared.len() as u64) as usize];
